@@ -37,7 +37,7 @@ SAME_HOOK = True        # systematic same-setup-function histories (hook_job)
 ALIAS_EPISODES = True   # aliasing-aware analysis episodes in the histories + store/store/load blocks on coinciding pointers
 CONFIG_MONITOR = True   # process-wide settings compared with their snapshot after every history step
 FAMILY = {"quick": 6, "thorough": 16}        # instructions per hook group
-CHUNK = 200                                  # family members per forked child (hook_job)
+CHUNK = 400                                  # family members per forked child (hook_job)
 GROUP_CPU = 20                               # CPU seconds per hook group before the child gives up
 MAX_HOOK_FINDINGS = 4                        # reported hook-group findings per ISA (the rest is counted)
 
@@ -50,15 +50,20 @@ def _alarm(signum, frame):
     raise Timeout()
 
 
+_GLOBALS = {}
+
+
 def global_flags(cpu, regs):
     """(name, sf) of every module-level register / slice object and the decode-mode switches"""
     from amoco.cas.expressions import exp
     out = {}
-    for k, v in vars(cpu).items():
-        if isinstance(v, exp) and (v._is_reg or v._is_slc):
-            out[k] = bool(v.sf)
-            if v._is_slc:
-                out[k + ".x"] = bool(v.x.sf)
+    objs = _GLOBALS.get(id(cpu))
+    if objs is None or objs[0] != len(vars(cpu)):
+        objs = _GLOBALS[id(cpu)] = (len(vars(cpu)), [(k, v) for k, v in vars(cpu).items() if isinstance(v, exp) and (v._is_reg or v._is_slc)])
+    for k, v in objs[1]:
+        out[k] = bool(v.sf)
+        if v._is_slc:
+            out[k + ".x"] = bool(v.x.sf)
     internals = getattr(cpu, "internals", None)
     if isinstance(internals, dict):
         for k, v in internals.items():
@@ -223,7 +228,12 @@ def evaluate(cpu, E, mapper, m, states, regs):
             except Exception as x:
                 vals.append("raised " + type(x).__name__)
         mm = c02.flat_mem(fin.mmap, E)
-        out.append((tuple(vals), None if mm is None else zlib.crc32(bytes(x if x is not None else 0xEE for x in mm))))
+        if mm is not None:
+            try:
+                mm = zlib.crc32(bytes(mm))
+            except TypeError:                    # symbolic / undefined bytes in the window
+                mm = zlib.crc32(bytes(x if x is not None else 0xEE for x in mm)) ^ 0x5A5A5A5A
+        out.append((tuple(vals), mm))
     return out
 
 
@@ -536,6 +546,9 @@ def case(args):
                 key = "%s|%s" % (name, switches[0]) if switches else "%s|%s|%s" % (name, cause[0], ",".join(cause[1]) or "no-global-flag-change")
                 msg = "%s: the %s of block [%s] evaluates differently after a history of %d instructions (first global write: %s by %s)" % (
                     name, what.replace("-", " "), " ; ".join(sstr(i) for i in B0)[:120], len(H), cause[1], cause[0])
+                if what.startswith("rebuilt-map-of-a-store-store-load"):
+                    msg = "%s: the map of a store through %s, a store through %s and a load through %s into %s (%d bits), made through the mapper API, evaluates differently when made after a history of %d instructions (block of the case: [%s]; first global write: %s by %s)" % (
+                        name, api[0], api[1], api[0], api[2], api[3], len(H), " ; ".join(sstr(i) for i in B0)[:80], cause[1], cause[0])
                 if what == "global-config-change":
                     key = "%s|global-config-change" % name
                     msg = "%s: a process-wide setting was changed by a history step (%s): %s" % (name, cfg["change"][0], "; ".join(cfg["change"][1])[:200])
@@ -563,18 +576,345 @@ def sstr(i):
         return "<%s %s>" % (getattr(i, "mnemonic", "?"), bytes(getattr(i, "bytes", b"")).hex())
 
 
+# ------------------------------------------------------------------------------------------------------------------------
+# systematic 'same setup function' histories
+STAGES = ("built in the first pass", "rebuilt in the second pass (its siblings decoded and executed once or twice before)",
+          "instruction object of the first pass executed again after the first pass (every sibling decoded once)",
+          "map of the first pass evaluated again at the end (every sibling decoded twice)")
+
+
+def spec_fields(s):
+    """[(first bit, width)] of the fields a specification extracts from its fixed-size part"""
+    from types import FunctionType
+    out = []
+    for D in (s.fargs, s.iattr):
+        for v in D.values():
+            d = getattr(v, "__defaults__", None)
+            if isinstance(v, FunctionType) and d and len(d) >= 2 and isinstance(d[0], int) and isinstance(d[1], int) and 0 <= d[0] < d[1] <= s.fix.size:
+                out.append((d[0], d[1] - d[0]))
+    return sorted(set(out))
+
+
+def spec_fills(rng, s, n):
+    """up to n values for the free bits of a specification: all value combinations of its 1-2 bit fields (the flags that steer
+    a hook: direction, size, register bank ...) when there are at most 4 such bits - else each small field through its
+    values on a common background - then all free bits clear / set and random / sparse backgrounds"""
+    size = s.fix.size
+    small = [f for f in spec_fields(s) if f[1] <= 2]
+    base = rng.getrandbits(size) if rng.random() < 0.5 else c04.sparse_bits(rng, size)
+    out = []
+
+    def put(v, f, x):
+        return (v & ~(X.mask(f[1]) << f[0])) | (x << f[0])
+    if small and sum(f[1] for f in small) <= 4:
+        combos = [base]
+        for f in small:
+            combos = [put(v, f, x) for v in combos for x in range(1 << f[1])]
+        rng.shuffle(combos)
+        out += combos
+    else:
+        for f in small:
+            out += [put(base, f, x) for x in range(1 << f[1])]
+        rng.shuffle(out)
+    out += [0, X.mask(size)]
+    while len(out) < n:
+        out.append(rng.getrandbits(size) if rng.random() < 0.5 else c04.sparse_bits(rng, size))
+    return out[:n]
+
+
+def hook_label(h, ordinal):
+    return "%s.%s#%d" % (str(h.__module__).split(".")[-1], getattr(h, "__name__", "hook"), ordinal)
+
+
+def hook_families(rng, dis, k, cap):
+    """[(label of the hook function, [instruction bytes])]: the live specifications of mode k grouped by hook function (source
+    order); per group up to cap byte strings - several specifications of the group, several field fills of each"""
+    specs, _ = c04.mode_specs(dis, k)
+    e, ml = dis.endian(), dis.maxlen
+    groups = {}
+    for s in specs:
+        groups.setdefault(s.hook, []).append(s)
+    hooks = sorted(groups, key=lambda h: (str(h.__module__), getattr(getattr(h, "__code__", None), "co_firstlineno", 0), str(getattr(h, "__name__", ""))))
+    ordinal, out = {}, []
+    for h in hooks:
+        hk = (str(h.__module__), getattr(h, "__name__", "hook"))
+        n = ordinal[hk] = ordinal.get(hk, -1) + 1
+        G = groups[h]
+        chosen = G if len(G) <= cap else rng.sample(G, cap)
+        per = -(-cap // len(chosen))
+        fills = [[(s, f) for f in spec_fills(rng, s, per)] for s in chosen]
+        fam, seen = [], set()
+        for j in range(per):                       # round robin over the specifications
+            for L in fills:
+                if j < len(L) and len(fam) < cap:
+                    s, f = L[j]
+                    b = c04.spec_bytes(rng, s, e, ml, fill=f)
+                    if b not in seen:
+                        seen.add(b)
+                        fam.append(b + bytes(rng.getrandbits(8) for _ in range(ml)))
+        if len(fam) >= 2:
+            out.append((hook_label(h, n), [b.hex() for b in fam]))
+    return out
+
+
+def _order(seq, variant, seed):
+    seq = list(seq)
+    if variant == 1:
+        seq.reverse()
+    elif variant >= 2:
+        random.Random(seed * 31 + variant).shuffle(seq)
+    return seq
+
+
+def hook_job(args):
+    """one pristine child: the families of a chunk of hook groups, in the order given by the variant (0 as listed, 1 groups
+    and members reversed, 2.. shuffled).  Per group: pass 1 decodes, executes (fresh map) and evaluates every member, pass 2
+    does it again; the instruction objects of pass 1 are executed once more between the passes (every sibling decoded an odd
+    number of times), the maps of pass 1 evaluated once more at the end.  Returns per group and
+    member the four signatures (None where equal to the first), and what the monitors saw (decode-mode switches, settings)."""
+    _, name, k, variant, seed, nstates, groups = args
+    from amoco.cas import expressions as E
+    from amoco.cas.mapper import mapper
+    from amoco.config import conf
+    cpus, _ = isa.load_all()
+    cpu = cpus[name]
+    dis = cpu.disassemble
+    res = {"kind": "hook", "name": name, "mode": k, "variant": variant, "groups": {}, "members": 0}
+    import resource
+    resource.setrlimit(resource.RLIMIT_AS, (5 << 30, 5 << 30))
+    signal.signal(signal.SIGALRM, _alarm)
+    signal.signal(signal.SIGPROF, _alarm)
+    signal.alarm(600)
+    try:
+        regs = registers(cpu)
+        states = gen_states(random.Random(seed), regs, nstates)
+        read_settings = settings_reader(conf, cpu)
+        c0 = read_settings()
+        with isa.ModeCtx(dis, k):
+            for label, fam in _order(groups, variant, seed):
+                fam = _order([bytes.fromhex(h) for h in fam], variant, seed)
+                g0 = global_flags(cpu, regs)
+                rec = {"sig": {}, "asm": {}, "switch": None, "flag": None, "cfg": None}
+                mon = {"g": g0}
+
+                def monitor(b, i):
+                    g = global_flags(cpu, regs)
+                    if g != mon["g"]:
+                        ch = sorted(kk for kk in g if g.get(kk) != mon["g"].get(kk))
+                        sw = [c for c in ch if c.startswith("internals.")]
+                        if sw and rec["switch"] is None:
+                            rec["switch"] = (str(getattr(i, "mnemonic", "?")), sw[:3])
+                        elif not sw and rec["flag"] is None:
+                            rec["flag"] = (str(getattr(i, "mnemonic", "?")), ch[:3])
+                        mon["g"] = g
+                    if CONFIG_MONITOR and rec["cfg"] is None:
+                        c1 = read_settings()
+                        if c1 != c0:
+                            rec["cfg"] = (b.hex(), sstr(i)[:60], settings_diff(c0, c1))
+                            read_settings.restore(c0)           # (reported; put back so that the other groups start clean)
+
+                def build(i):
+                    m = mapper()
+                    i(m)
+                    return m
+
+                def signature(f):
+                    try:
+                        m = f()
+                    except Exception as x:
+                        return None, ("semantics raised", type(x).__name__)
+                    return m, evaluate(cpu, E, mapper, m, states, regs)
+                signal.setitimer(signal.ITIMER_PROF, GROUP_CPU)
+                try:
+                    first = {}
+                    for b in fam:                                       # pass 1
+                        i = decode_all(dis, [b])
+                        i = i[0] if i else None
+                        m, sg = signature(lambda: build(i)) if i is not None else (None, "not an instruction")
+                        first[b] = (i, m)
+                        rec["sig"][b.hex()] = [sg, None, None, None]
+                        rec["asm"][b.hex()] = sstr(i)[:48] if i is not None else "-"
+                        monitor(b, i)
+                    for b in fam:                                       # the instruction objects of pass 1 executed again
+                        i, m = first[b]
+                        if i is not None:
+                            rec["sig"][b.hex()][2] = signature(lambda: build(i))[1]
+                    for b in fam:                                       # pass 2
+                        i = decode_all(dis, [b])
+                        i = i[0] if i else None
+                        m, sg = signature(lambda: build(i)) if i is not None else (None, "not an instruction")
+                        rec["sig"][b.hex()][1] = sg
+                        monitor(b, i)
+                    for b in fam:                                       # the maps of pass 1 evaluated again
+                        i, m = first[b]
+                        if m is not None:
+                            rec["sig"][b.hex()][3] = evaluate(cpu, E, mapper, m, states, regs)
+                    monitor(fam[-1], first[fam[-1]][0])
+                except Timeout:
+                    res["stopped"] = label          # (a group that ran out of time ends the child: its state is not trusted)
+                    break
+                finally:
+                    signal.setitimer(signal.ITIMER_PROF, 0)
+                for sg in rec["sig"].values():
+                    for j in (1, 2, 3):
+                        if sg[j] == sg[0]:
+                            sg[j] = None            # (None: equal to the first signature, or a stage that did not run)
+                res["groups"][label] = rec
+                res["members"] += len(fam)
+                if rec["switch"]:
+                    # decode-mode switches written by this group are put back (the write is reported with the group when its
+                    # signatures differ) so that the following groups are explored from the module's own setting
+                    internals = getattr(cpu, "internals", None)
+                    for kk in list(internals or {}):
+                        if "internals." + str(kk) in g0 and internals[kk] != g0["internals." + str(kk)]:
+                            internals[kk] = g0["internals." + str(kk)]
+    except Timeout:
+        res["error"] = "time limit"
+    except MemoryError:
+        res["error"] = "memory limit (5 GB)"
+    except Exception as x:
+        res["error"] = "%s: %r" % (type(x).__name__, x)
+    finally:
+        signal.alarm(0)
+        signal.setitimer(signal.ITIMER_PROF, 0)
+    return res
+
+
+def first_job(args):
+    """a pristine child in which one byte string is decoded, executed and evaluated first: the reference of the property"""
+    _, name, k, seed, nstates, hexbytes = args
+    from amoco.cas import expressions as E
+    from amoco.cas.mapper import mapper
+    cpus, _ = isa.load_all()
+    cpu = cpus[name]
+    dis = cpu.disassemble
+    signal.signal(signal.SIGALRM, _alarm)
+    signal.alarm(120)
+    try:
+        regs = registers(cpu)
+        states = gen_states(random.Random(seed), regs, nstates)
+        with isa.ModeCtx(dis, k):
+            i = decode_all(dis, [bytes.fromhex(hexbytes)])
+            if not i:
+                return "not an instruction"
+            try:
+                m = mapper()
+                i[0](m)
+            except Exception as x:
+                return ("semantics raised", type(x).__name__)
+            return evaluate(cpu, E, mapper, m, states, regs)
+    except Timeout:
+        return "time limit"
+    finally:
+        signal.alarm(0)
+
+
+def job(args):
+    if args[0] == "hook":
+        return hook_job(args)
+    if args[0] == "first":
+        return first_job(args)
+    return case(args)
+
+
+def hook_tasks(cpus, seed, tier):
+    """[(task, ...)] for every ISA / mode: the hook families cut into chunks of about CHUNK members, each chunk run by one
+    pristine child per order variant (the families are made here, in the parent, from the specification tables only)"""
+    tasks = []
+    nstates = 1 if tier == "quick" else 2
+    variants = (0, 1) if tier == "quick" else (0, 1, 2)
+    for name, cpu in sorted(cpus.items()):
+        dis = cpu.disassemble
+        if not hasattr(dis.iclass, "_uarch"):
+            continue
+        for k in range(len(dis.specs)):
+            s = seed * 1000003 + zlib.crc32(name.encode()) % 9973 + k
+            fams = hook_families(random.Random(s), dis, k, FAMILY.get(tier, 6))
+            chunk, n, ci = [], 0, 0
+            for g in fams + [None]:
+                if g is None or (chunk and n + len(g[1]) > CHUNK):
+                    if chunk:
+                        for v in variants:
+                            tasks.append(("hook", name, k, v, s + 7 * ci, nstates, chunk))
+                        ci += 1
+                    chunk, n = [], 0
+                if g is not None:
+                    chunk.append(g)
+                    n += len(g[1])
+    return tasks
+
+
+def compare_hook(runs):
+    """runs: the results of the order variants of one chunk.  -> (list of findings, groups compared, members compared)"""
+    out = []
+    ref = runs[0]
+    ng = nm = 0
+    for label, rec0 in ref["groups"].items():
+        recs = [r["groups"].get(label) for r in runs]
+        if any(x is None for x in recs):
+            continue
+        ng += 1
+        for hb, sg0 in rec0["sig"].items():
+            nm += 1
+            base = sg0[0]
+            bad = None
+            for r, rec in zip(runs, recs):
+                sg = rec["sig"].get(hb)
+                if sg is None:
+                    continue
+                for j in range(4):
+                    v = sg[0] if (sg[j] is None and j) else sg[j]
+                    if v != base and bad is None:
+                        bad = (r["variant"], j, v)
+            cfg = next((rec["cfg"] for rec in recs if rec["cfg"]), None)
+            if bad or (cfg and cfg[0] == hb):
+                out.append({"label": label, "member": hb, "asm": rec0["asm"].get(hb), "base": base, "bad": bad, "cfg": cfg,
+                            "switch": next((rec["switch"] for rec in recs if rec["switch"]), None),
+                            "flag": next((rec["flag"] for rec in recs if rec["flag"]), None),
+                            "family": list(rec0["sig"])})
+        for rec in recs:                     # a setting changed by a member that is reported nowhere else
+            if rec["cfg"] and not any(f["label"] == label and f["cfg"] for f in out):
+                out.append({"label": label, "member": rec["cfg"][0], "asm": rec["cfg"][1], "base": None, "bad": None, "cfg": rec["cfg"],
+                            "switch": None, "flag": None, "family": list(rec0["sig"])})
+    return out, ng, nm
+
+
+def hook_finding(name, k, f, seed, nstates, first=None):
+    """(key, what, replay) of a hook-group finding"""
+    if f["cfg"] and not f["bad"]:
+        key = "%s|global-config-change" % name
+        what = "%s: a process-wide setting was changed by decoding / executing / evaluating %s [%s]: %s" % (name, f["member"], f["asm"], "; ".join(f["cfg"][2])[:200])
+    else:
+        v, j, val = f["bad"]
+        sw = f["switch"]
+        key = "%s|%s" % (name, sw[1][0]) if sw else "%s|%s|same-hook-history" % (name, f["label"])
+        ref = ""
+        if first is not None:
+            ref = "; built first in a pristine process it %s" % ("agrees with order 0" if first == f["base"] else "agrees with the other" if first == val else "differs from both")
+        what = ("%s: instruction %s [%s] of the hook group %s (family of %d decoded / executed in different orders): its map %s in order %d evaluates differently from "
+                "the one built in the first pass of order 0%s (first global write in the group: %s)" % (
+                    name, f["member"], f["asm"], f["label"], len(f["family"]), STAGES[j], v, ref, sw or f["flag"] or "none"))
+    return key, what, {"kind": "hook-group", "isa": name, "mode": k, "seed": seed, "nstates": nstates, "hook": f["label"], "member": f["member"],
+                       "family": f["family"], "expected": repr(f["base"])[:600], "observed": repr(f["bad"])[:600], "settings": f["cfg"]}
+
+
 def check(run):
     quick = run.tier == "quick"
-    run.cov["rule"] = ("(cpu module/mode, block of 2-6 spec-derived instructions, history of 6-24 other spec-derived instructions decoded, "
+    run.cov["rule"] = ("(cpu module/mode, block of 2-6 spec-derived instructions - in part behind the ISA's own store / store / load through two pointer "
+                       "registers -, history of 6-24 other spec-derived instructions decoded, "
                        "executed on scratch maps and partly evaluated, plus 2-7 truncated / refused byte strings (behind the ISA's prefix bytes where it has "
-                       "prefix specifications) with the block rebuilt right after up to 3 failed decodes, 2 concrete states with boundary register values); each case in its own "
-                       "forked process; distinct by (module, seed); non-trivial when the history executed >= 3 instructions")
+                       "prefix specifications) with the block rebuilt right after up to 3 failed decodes, plus an analysis episode (maps with aliasing-aware "
+                       "memory reads built under a temporary conf.Cas.noaliasing=False, kept and evaluated later), 2 concrete states with boundary register "
+                       "values and a state with coinciding pointers; every process-wide setting compared with its snapshot after every step); each case in its own "
+                       "forked process; distinct by (module, seed); non-trivial when the history executed >= 3 instructions.  Plus, for every hook function "
+                       "of every ISA / mode: a family of up to %d instructions of its specifications decoded, executed and evaluated in %d orders in pristine "
+                       "children, twice, old objects re-evaluated (hook_groups_compared / hook_members_compared)" % (FAMILY.get(run.tier, 6), 2 if quick else 3))
     run.static_part()
     import multiprocessing as mp
     import gc
     cpus, failed = isa.load_all()
     tasks = []
-    per = 24 if quick else 400
+    per = 16 if quick else 400
     for name, cpu in sorted(cpus.items()):
         for k in range(len(cpu.disassemble.specs)):
             for j in range(per):
@@ -583,12 +923,35 @@ def check(run):
     import glob
     for cf in sorted(glob.glob(str(common.VERIF / "corpus" / "C10" / "*.json"))):
         rep = json.load(open(cf)).get("replay", {})
-        if rep.get("isa") in cpus:
+        if rep.get("isa") in cpus and rep.get("kind") != "hook-group":
             tasks.insert(0, (rep["isa"], rep["mode"], rep["seed"]))
+    htasks = hook_tasks(cpus, run.seed, run.tier) if SAME_HOOK else []
     gc.collect()
     gc.freeze()
     with mp.get_context("fork").Pool(14, maxtasksperchild=1) as pool:
-        results = pool.map(case, tasks, chunksize=1)
+        allres = pool.map(job, htasks + tasks, chunksize=1)
+        results = allres[len(htasks):]
+        # ---- hook groups: the order variants of every chunk against each other
+        chunks = {}
+        for t, r in zip(htasks, allres):
+            chunks.setdefault((t[1], t[2], t[4]), []).append((t, r))
+        nfind = {}
+        for (name, k, s), L in sorted(chunks.items()):
+            for t, r in L:
+                if r.get("error") or r.get("stopped"):
+                    run.hist("hook_child_errors", "%s %s" % (name, r.get("error") or "group out of time: " + r["stopped"]))
+            finds, ng, nm = compare_hook([r for _, r in L])
+            run.hist("hook_groups_compared", "%s_m%d" % (name, k), ng)
+            run.hist("hook_members_compared", "%s_m%d" % (name, k), nm)
+            run.cov["evaluations"] += nm
+            for f in finds:
+                nfind[name] = nfind.get(name, 0) + 1
+                if nfind[name] > MAX_HOOK_FINDINGS:
+                    run.hist("hook_findings_not_reported", name)
+                    continue
+                nst = L[0][0][5]
+                first = pool.apply(job, (("first", name, k, s, nst, f["member"]),)) if f["bad"] else None
+                run.violation(*hook_finding(name, k, f, s, nst, first))
     for r in results:
         if r.get("error"):
             run.hist("case_errors", r["name"] + " " + r["error"][:60])
@@ -599,18 +962,38 @@ def check(run):
         run.hist("cases_by_isa", "%s_m%d" % (r["name"], r["mode"]))
         run.hist("failed_decodes_in_histories", r["name"], r.get("failed_decodes", 0))
         run.hist("mid_history_rebuilds", r["name"], r.get("mid_rebuilds", 0))
+        run.hist("aliasing_episode_evaluations", r["name"], r.get("episode_uses", 0))
+        if r.get("triple_block"):
+            run.hist("blocks_with_store_store_load_through_two_pointers", r["name"])
         if r["find"]:
             f = r["find"]
             run.violation(f["key"], f["what"], f["replay"])
     run.cov["trusted_base"] += ["harness/c10.py: fork-per-case isolation (the parent never decodes or executes), state evaluation via c02.make_state / (s0 >> m), "
-                                "walker over module-level register objects (global_flags)"]
-    run.assumptions += ["results are compared by concrete evaluation on two states per case (registers and a digest of the memory window)",
-                        "blocks or histories whose semantics raise are skipped (C17's subject)"]
+                                "walker over module-level register objects (global_flags), reader of the process-wide settings (settings_reader), "
+                                "store / load encoders of harness/c02.py (COPY_ISAS)"]
+    run.assumptions += ["results are compared by concrete evaluation on two states per case (registers and a digest of the memory window), a third state with "
+                        "coinciding pointers for blocks that store through two pointers; hook-group signatures on one state (quick) / two states (thorough)",
+                        "blocks or histories whose semantics raise are skipped (C17's subject); in hook groups the exception type is part of the signature",
+                        "hook groups: any two orders / passes that disagree on the evaluation of the same bytes contradict 'equal to the map built first' for at "
+                        "least one of them; the pristine reference is computed for reported findings only",
+                        "decode-mode switches (cpu.internals) written inside a hook group are put back after the group, settings after the reported step"]
     return run
 
 
 def replay(path):
     obj = json.load(open(path))["replay"]
+    if obj.get("kind") == "hook-group":
+        import multiprocessing as mp
+        cpus, _ = isa.load_all()
+        chunk = [(obj["hook"], obj["family"])]
+        with mp.get_context("fork").Pool(1, maxtasksperchild=1) as pool:
+            runs = [pool.apply(job, (("hook", obj["isa"], obj["mode"], v, obj["seed"], obj.get("nstates", 1), chunk),)) for v in (0, 1, 2)]
+            finds, _, _ = compare_hook(runs)
+            for f in finds[:4]:
+                first = pool.apply(job, (("first", obj["isa"], obj["mode"], obj["seed"], obj.get("nstates", 1), f["member"]),)) if f["bad"] else None
+                key, what, rep = hook_finding(obj["isa"], obj["mode"], f, obj["seed"], obj.get("nstates", 1), first)
+                print(key, what, json.dumps(rep, indent=1)[:1500], sep="\n")
+        return 1 if finds else 0
     r = case((obj["isa"], obj["mode"], obj["seed"]))
     print(json.dumps(r.get("find"), indent=1)[:2000])
     return 1 if r.get("find") else 0
